@@ -9,6 +9,7 @@ import Proofs.Undo
 import Proofs.UndoReplace
 import Proofs.UndoForward
 import Proofs.UndoAround
+import Proofs.UndoFit
 namespace PM.C04
 open PM
 
@@ -727,6 +728,41 @@ theorem replaceAround_undo (S : Schema) (doc doc' : Node) (f t gf gt : Nat) (sl 
         obtain ⟨c1, c2⟩ := hst rfl
         simp [Schema.apply, c1, c2, hgap2', hg2closed.1, hg2closed.2, hx', hfin]
 
+/-- **replace-around steps of the shapes `lift`, `wrap` and `set_node_markup` emit**: when the gap lies
+    between complete children of the node it sits in (both ends at child boundaries of the same node, not
+    inside text) and the children before and after it are not two texts with equal marks (`gapClean`,
+    evaluated on the old slice `doc.slice(f, t)`), the fit guard of `replaceAround_undo` holds by itself —
+    `insert_into`'s `can_replace` check then sees exactly the child sequence of a node of the valid `doc`. -/
+theorem replaceAround_undo_structural (S : Schema) (doc doc' : Node) (f t gf gt : Nat) (sl : Slice)
+    (ins : Nat) (b : Bool) (inv : Step)
+    (hd : S.checkNode doc = true) (hn : fnorm doc.kids = true) (hsn : fnorm sl.content = true)
+    (hwf : sl.wf = true) (hins : (ins : Int) ≤ sl.size) (hg : f ≤ gf ∧ gf ≤ gt ∧ gt ≤ t)
+    (h1 : S.apply (.replaceAround f t gf gt sl ins b) doc = .ok doc')
+    (hi : S.invert (.replaceAround f t gf gt sl ins b) doc = .ok inv)
+    (hst : b = true → contentBetween doc' f (f + ins) = some false ∧
+      contentBetween doc' (f + ins + (gt - gf)) (f + sl.size.toNat + (gt - gf)) = some false)
+    (hclean : ∀ old, doc.slice f t = .ok old →
+      gapClean old.content none (gf - f + old.openStart) (gt - f + old.openStart) = true)
+    (hj : sidesCompatibleAround S doc f t gf gt sl ins = true)
+    (ha : alignedAt doc'.kids f = true ∧ alignedAt doc'.kids (f + ins) = true ∧
+      alignedAt doc'.kids (f + ins + (gt - gf)) = true ∧
+      alignedAt doc'.kids (f + sl.size.toNat + (gt - gf)) = true) :
+    S.apply inv doc' = .ok doc := by
+  refine replaceAround_undo S doc doc' f t gf gt sl ins b inv hd hn hsn hwf hins hg h1 hi hst ?_ hj ha
+  obtain ⟨gap, inserted, hgap, hgo1, hgo2, _, _⟩ :=
+    apply_replaceAround_parts S doc doc' f t gf gt sl ins b h1
+  obtain ⟨_, htK, _⟩ := apply_replaceAround_toks S doc doc' f t gf gt sl ins b hwf hins hg h1
+  simp only [Schema.invert] at hi
+  cases hsl : doc.slice f t with
+  | error e => simp [hsl] at hi
+  | ok old =>
+    simp only [hsl] at hi
+    cases hrm : old.removeBetween (gf - f) (gt - f) with
+    | error e => simp [hrm] at hi
+    | ok rem =>
+      exact gapFitsBack_of_clean S doc f t gf gt old rem gap hd hn hg htK hsl hgap ⟨hgo1, hgo2⟩ hrm
+        (hclean old hsl)
+
 /-! Non-vacuity of `replaceAround_undo`: wrapping `p("ab")` of `doc(p("ab"))` in a `quote`
     (replace-around 0…4, gap 0…4, slice `quote()`, insert 1) gives `doc(quote(p("ab")))`; the inverse
     (replace-around 0…6, gap 1…5, empty slice) lifts it out again. -/
@@ -782,6 +818,25 @@ example : wrapS.apply wInv wDoc' = .ok wDoc := by
   · simp only [gapFitsBack, w_slice]
     simp [Slice.removeBetween, removeRange, removeRange.removeFlat, inRange, flatAt, fcut, fappend,
       Slice.insertAt, insertInto, flatInsert]
+  · simp only [sidesCompatibleAround, w_slice, w_ins]
+    exact sidesCompatible_of_closed _ _ _ _ _ (.inl rfl)
+  · simp [wDoc', Node.kids, wSl, Slice.size, alignedAt]
+
+/-- the same through `replaceAround_undo_structural`: the gap is the whole child `p("ab")` -/
+example : wrapS.apply wInv wDoc' = .ok wDoc := by
+  refine replaceAround_undo_structural wrapS wDoc wDoc' 0 4 0 4 wSl 1 false _ ?_ ?_ ?_ ?_ ?_ ?_ w_fwd w_inv
+    ?_ ?_ ?_ ?_
+  · decide
+  · simp [wDoc, Node.kids, fnorm, fnormKids, Node.norm, chainOk]
+  · simp [wSl, fnorm, fnormKids, Node.norm, chainOk]
+  · simp [wSl, Slice.wf, spineL, spineR]
+  · simp [wSl, Slice.size]
+  · omega
+  · intro h; simp at h
+  · intro old h
+    rw [w_slice] at h
+    simp at h; subst h
+    simp [gapClean, gapEnd]
   · simp only [sidesCompatibleAround, w_slice, w_ins]
     exact sidesCompatible_of_closed _ _ _ _ _ (.inl rfl)
   · simp [wDoc', Node.kids, wSl, Slice.size, alignedAt]
@@ -869,7 +924,7 @@ theorem replaceAround_undo_needs_guard :
   · simp [fgSl, Slice.size]
   · simp only [sidesCompatibleAround, fg_slice35, fg_ins]
     exact sidesCompatible_of_closed _ _ _ _ _ (.inl rfl)
-  · simp [fgDoc', Node.kids, fgSl, Slice.size, alignedAt, splitOk]
+  · simp [fgDoc', Node.kids, fgSl, Slice.size, alignedAt]
   · simp only [gapFitsBack, fg_slice08, fg_slice35]
     simp [fg_rem, fg_nofit]
 end NeedsFit
